@@ -146,7 +146,9 @@ def cases(draw, tier="quick"):
             if any(gen.root_forms(nm)[1] & gen.root_forms(u)[1] for u in used):
                 continue
             used.add(nm)
-            extra.append([nm, draw(st.one_of(st.just(c["samples"][:1]), gen.sample_lists(universe, max_samples=3, max_leaves=6)))])
+            nested_objs = [v for s0 in c["samples"] for _, v in _items(s0) if isinstance(v, dict) and v]
+            extra.append([nm, draw(st.one_of(st.just(c["samples"][:1]), gen.sample_lists(universe, max_samples=3, max_leaves=6),
+                                             *([st.sampled_from(nested_objs).map(lambda o: [o])] * 2 if nested_objs else [])))])
         if extra:
             c["extra_models"] = extra
     elif draw(st.integers(0, 7)) == 0:
